@@ -18,7 +18,7 @@ PROPS = {
         assumptions=[R_REAL, "placements are deliverable (equal channel counts)"],
     ),
     "C03": dict(
-        rig="R", mix=[("R", ""), ("R", ""), ("R", ""), ("S", "etcd"), ("S", "mysql")], runs=dict(quick=2500, thorough=60000),
+        rig="R", residual_nondeterminism=True, mix=[("R", ""), ("R", ""), ("R", ""), ("S", "etcd"), ("S", "mysql")], runs=dict(quick=2500, thorough=60000),
         nontrivial_probes=["queue_shared_by_collections", "S_ack_time_checked"],
         must_hit=["queue_shared_by_collections", "S_ack_time_checked", "restart", "reg_resume"],
         rule="2-3 collections multiplexed on one downstream pchannel, yield hooks between collect/compute/enqueue enabled in 80% of runs, clock advances interleaved so that tick-only packs are emitted or suppressed.",
